@@ -81,6 +81,35 @@ class ReadPathRun:
         self.consumed = 0
         self.res.config = dict(timecode=self.timecode, forced=self.forced)
 
+    def load_quicklogger_file(self):
+        """the same process reads a quicklogger file with the package's reader (which temporarily swaps the
+        message-definition tables); afterwards the client's definitions must be what they were"""
+        import io
+        import contextlib
+        import os
+        import tempfile
+        from pyrtma.utils.quicklogger_reader import QLReader, QLFileHeader
+        from harness.datalogger import qldefs_path
+        d = tempfile.mkdtemp(prefix="verif_rp_", dir=os.environ.get("VERIF_SCRATCH", "/tmp"))
+        try:
+            p = os.path.join(d, "empty.bin")
+            fh = QLFileHeader()
+            fh.format_version = 1
+            fh.message_header_size = 48
+            fh.data_block_offset_size = 4
+            fh.total_bytes = fh.size
+            with open(p, "wb") as f:
+                f.write(bytes(fh))
+            with contextlib.redirect_stdout(io.StringIO()):
+                QLReader().load(p, qldefs_path())
+        finally:
+            import shutil
+            shutil.rmtree(d, ignore_errors=True)
+        # (the scratch type is not part of the reader's definitions file; re-register it as the application would)
+        self.define_scratch(self.scratch_layout)
+        self.res.probes["quicklogger_file_loaded"] += 1
+        self.t("the process loads a quicklogger file with QLReader")
+
     def define_scratch(self, layout):
         """(re-)register the scratch message type with one of two layouts via the public decorator"""
         import pyrtma
@@ -467,7 +496,7 @@ class ReadPathRun:
         clients of both kinds)"""
         ch = self.ch
         first_tc = bool(ch.pick("cfg.timecode", 2))
-        two = (not self.forced) and ch.flag("cfg.second_session", 1, 4)
+        two = (not self.forced) and ch.flag("cfg.second_session", 1, 3)
         res = self.session(first_tc)
         if two and not res.violations:
             keep = (list(res.trace), res.probes.copy(), res.stats.copy(), res.sim_seconds)
@@ -504,7 +533,8 @@ class ReadPathRun:
                     last = self.frames[-1]
                     keep_total = last.start + f["offset"]
                     self.server_close(f["way"], keep=max(0, keep_total - self.consumed))
-                op = ch.weighted("op.kind", [(6, "feed"), (7, "read"), (2, "sub"), (1, "close"), (2, "arrive"), (1, "redefine")])
+                op = ch.weighted("op.kind", [(12, "feed"), (14, "read"), (4, "sub"), (2, "close"), (4, "arrive"), (2, "redefine"),
+                                             (1, "qlload")])
                 if self.closed_kind is not None and op in ("feed", "close"):
                     op = "read"
                 if op == "feed":
@@ -517,6 +547,8 @@ class ReadPathRun:
                     self.change_subscription()
                     if not c.connected:
                         lost = True
+                elif op == "qlload":
+                    self.load_quicklogger_file()
                 elif op == "redefine":
                     # frames already queued keep their old layout: they must now be judged against the new one
                     self.define_scratch(1 - self.scratch_layout)
